@@ -187,7 +187,6 @@ TABLE = [
      "for row in (0..self.rows()).rev() { self.data.insert(self.get_index(row, column), value.clone()); } self.columns += 1; } }",
      None),
     # ---- refusals (notes/GEN.md: "Unsupported, by design")
-    ("refuse-loop-in-body", "fn", None, "f", "fn f(a: usize) -> usize { let mut s = 0; for i in 0..a { s += i; } s }", ("refused", "`for` loop")),
     ("refuse-while", "fn", None, "f", "fn f(a: usize) -> usize { while a > 0 { } a }", ("refused", "`while` expression")),
     ("refuse-loop-break", "fn", None, "f", "fn f(a: usize) -> usize { loop { break; } }", ("refused", "`loop` expression")),
     ("refuse-closure-elsewhere", "fn", None, "f", "fn f(a: usize) -> usize { let g = |x| x + 1; a }", ("refused", "closure")),
@@ -196,7 +195,6 @@ TABLE = [
     ("refuse-string-literal", "fn", None, "f", "fn f(a: usize) -> usize { let s = \"x\"; a }", ("refused", "string / char / float literal")),
     ("refuse-float-literal", "fn", None, "f", "fn f(a: usize) -> usize { let s = 1.5; a }", ("refused", "string / char / float literal")),
     ("refuse-division", "fn", None, "f", "fn f(a: usize) -> usize { a / 2 }", ("refused", "operator /")),
-    ("refuse-remainder", "fn", None, "f", "fn f(a: usize) -> usize { a % 2 }", ("refused", "operator %")),
     ("refuse-shift", "fn", None, "f", "fn f(a: usize) -> usize { a << 2 }", ("refused", "")),
     ("refuse-wrapping", "fn", None, "f", "fn f(a: usize) -> usize { a.wrapping_add(2) }", ("refused", "method .wrapping_add")),
     ("refuse-cfg-attribute", "fn", None, "f", "fn f(a: usize) -> usize { #[cfg(debug_assertions)] let a = a + 1; a }", ("refused", "attribute inside a body")),
@@ -267,6 +265,97 @@ NUMERIC_TABLE = [
      {"gen_from_usize_integral": ("refused", "expression bin in a from_usize body"),
       "gen_from_usize_integral_types": ("refused", "from_usize_integral! invoked at ['char']")}),
 ]
+
+
+# ---- wave 3: `for` loops inside bodies as folds, computed array indexes, `&mut` parameters, records,
+#      event traces, Vec / iterator parameters as lengths, nested-outcome frames (expected texts blessed
+#      from the translator and read by hand)
+WAVE3_TABLE = [
+    ('for-in-body-fold', 'fn', None, 'f',
+     'fn f(a: usize) -> usize { let mut s = 0; for i in 0..a { s += i; } s }',
+     ['Definition gen_f (md : mode) (a : N) : outcome N :=\n  let s := 0 in obind (gen_fold (fun (s1 : N) (i : N) => obind (u_add md s1 i) (fun tmp1 => let s2 := tmp1 in Ok s2)) s (gen_range 0 a)) (fun s3 => Ok s3).']),
+    ('for-fold-two-vars-rev-continue', 'fn', None, 'f',
+     'fn f(a: usize) -> usize { let mut s = 0; let mut t = 1; for i in (1..a).rev() { if i == 3 { continue; } s += i; t = t * 2; } s + t }',
+     ["Definition gen_f (md : mode) (a : N) : outcome N :=\n  let s := 0 in let t := 1 in obind (gen_fold (fun (st : (N * N)) (i : N) => let '(s1, t1) := st in if i =? 3 then Ok (s1, t1) else obind (u_add md s1 i) (fun tmp1 => let s2 := tmp1 in obind (u_mul md t1 2) (fun tmp2 => let t2 := tmp2 in Ok (s2, t2)))) ((s, t)) (rev (gen_range 1 a))) (fun st => let '(s3, t3) := st in u_add md s3 t3)."]),
+    ('for-fold-in-value-block', 'fn', None, 'f',
+     'fn f(a: usize) -> usize { let n = { let mut c = 0; for i in 0..a { if i > 2 { c += 1; } } c }; let mut r = n; r += 1; r }',
+     ['Definition gen_f (md : mode) (a : N) : outcome N :=\n  let c := 0 in obind (gen_fold (fun (c1 : N) (i : N) => if 2 <? i then obind (u_add md c1 1) (fun tmp1 => let c2 := tmp1 in Ok c2) else Ok c1) c (gen_range 0 a)) (fun c3 => let n := c3 in let r := n in obind (u_add md r 1) (fun tmp2 => let r1 := tmp2 in Ok r1)).']),
+    ('for-fold-no-state', 'fn', None, 'f',
+     'fn f(a: usize) -> usize { for i in 0..a { assert!(i < 5); } a }',
+     ['Definition gen_f (md : mode) (a : N) : outcome N :=\n  obind (gen_fold (fun (_ : unit) (i : N) => if i <? 5 then Ok tt else Panic) tt (gen_range 0 a)) (fun _ => Ok a).']),
+    ('for-fold-over-array-pattern', 'fn', None, 'f',
+     'fn f<const D: usize>(shape: &[(Dimension, usize); D]) -> usize { let mut n = 0; for (_, l) in shape.iter() { n += *l; } n }',
+     ['Definition gen_f (md : mode) (shape : (list (N * N))) : outcome N :=\n  let n := 0 in obind (gen_fold (fun (n1 : N) (x : (N * N)) => let l := snd x in obind (u_add md n1 l) (fun tmp1 => let n2 := tmp1 in Ok n2)) n shape) (fun n3 => Ok n3).']),
+    ('refuse-return-in-folded-loop', 'fn', None, 'f',
+     'fn f(a: usize) -> usize { for i in 0..a { if i == 2 { return 0; } } a }',
+     ("refused", '`return` from inside a `for` loop')),
+    ('refuse-loop-assigns-self-field', 'fn', ('impl', None, 'IndexRange'), 'grow',
+     'pub struct IndexRange { pub(crate) start: usize, pub(crate) length: usize }\nimpl IndexRange { fn grow(&mut self, n: usize) { for i in 0..n { self.length += 1; } } }',
+     ("refused", 'field of self inside a `for` loop')),
+    ('remainder-literal', 'fn', None, 'f',
+     'fn f(a: usize) -> bool { a % 2 == 0 }',
+     ['Definition gen_f (md : mode) (a : N) : outcome bool :=\n  Ok ((a mod 2) =? 0).']),
+    ('refuse-remainder-variable', 'fn', None, 'f',
+     'fn f(a: usize, b: usize) -> usize { a % b }',
+     ("refused", 'not a non-zero literal')),
+    ('bool-and-option-equality', 'fn', None, 'f',
+     'fn f(a: usize, b: usize, p: bool, q: bool) -> bool { a.checked_mul(b) == Some(b) && p != q }',
+     ['Definition gen_f (md : mode) (a : N) (b : N) (p : bool) (q : bool) : outcome bool :=\n  Ok ((gen_opt_eqb (checked_mul a b) (Some b)) && (negb (Bool.eqb p q))).']),
+    ('array-read-write-computed-index', 'fn', None, 'f',
+     'fn f<const D: usize>(xs: &[usize; D], i: usize) -> usize { let mut ys = *xs; ys[i] = 7; ys[i + 1] += 1; if D > 0 { ys[D - 1] } else { 0 } }',
+     ['Definition gen_f (md : mode) (xs : (list N)) (i : N) : outcome N :=\n  let ys := xs in obind (gen_upd ys i 7) (fun ys1 => obind (u_add md i 1) (fun tmp1 => obind (u_add md i 1) (fun tmp2 => obind (gen_nth ys1 tmp2) (fun tmp3 => obind (u_add md tmp3 1) (fun tmp4 => obind (gen_upd ys1 tmp1 tmp4) (fun ys2 => if 0 <? ((N.of_nat (length xs))) then obind (u_sub md ((N.of_nat (length xs))) 1) (fun tmp5 => gen_nth ys2 tmp5) else Ok 0)))))).']),
+    ('array-repeat-literal', 'fn', None, 'f',
+     'fn f<const D: usize>(xs: &[usize; D], n: usize) -> usize { let zs = [0; D]; let ws = [1; 3]; zs[n] + ws[0] }',
+     ['Definition gen_f (md : mode) (xs : (list N)) (n : N) : outcome N :=\n  let zs := repeat 0 (N.to_nat ((N.of_nat (length xs)))) in let ws := repeat 1 (N.to_nat 3) in obind (gen_nth zs n) (fun tmp1 => obind (gen_nth ws 0) (fun tmp2 => u_add md tmp1 tmp2)).']),
+    ('fnmut-mut-params', 'fnmut', None, 'step',
+     'fn step(finished: &mut bool, c: &mut usize, n: usize) -> Option<usize> { if *finished { return None; } let v = Some(*c); if *c == n - 1 { *finished = true; } else { *c += 1; } v }',
+     ['Definition gen_step (md : mode) (finished : bool) (c : N) (n : N) : outcome ((option N) * (bool * N)) :=\n  if finished then Ok (None, (finished, c)) else let v := Some c in obind (u_sub md n 1) (fun tmp1 => if c =? tmp1 then let finished1 := true in Ok (v, (finished1, c)) else obind (u_add md c 1) (fun tmp2 => let c1 := tmp2 in Ok (v, (finished, c1)))).']),
+    ('fnmut-array-param-loop', 'fnmut', None, 'bump',
+     'fn bump<const D: usize>(xs: &mut [usize; D], lens: &[usize; D]) { for d in (1..D).rev() { if xs[d] == lens[d] { xs[d] = 0; xs[d - 1] += 1; } } }',
+     ['Definition gen_bump (md : mode) (xs : (list N)) (lens : (list N)) : outcome (unit * (list N)) :=\n  obind (gen_fold (fun (xs1 : (list N)) (d : N) => obind (gen_nth xs1 d) (fun tmp1 => obind (gen_nth lens d) (fun tmp2 => if tmp1 =? tmp2 then obind (gen_upd xs1 d 0) (fun xs2 => obind (u_sub md d 1) (fun tmp3 => obind (u_sub md d 1) (fun tmp4 => obind (gen_nth xs2 tmp4) (fun tmp5 => obind (u_add md tmp5 1) (fun tmp6 => obind (gen_upd xs2 tmp3 tmp6) (fun xs3 => Ok xs3)))))) else Ok xs1))) xs (rev (gen_range 1 ((N.of_nat (length xs)))))) (fun xs4 => Ok (tt, xs4)).']),
+    ('refuse-fnmut-without-mut-param', 'fnmut', None, 'f',
+     'fn f(a: usize) -> usize { a }',
+     ("refused", 'no `&mut` parameter')),
+    ('record-struct-literal', 'fn', 'ShapeIterator', 'from',
+     'pub struct ShapeIterator<const D: usize> { shape: [(Dimension, usize); D], indexes: [usize; D], finished: bool }\nimpl<const D: usize> ShapeIterator<D> { pub fn from(shape: [(Dimension, usize); D]) -> ShapeIterator<D> { let ok = shape.iter().all(|(_, l)| *l > 0); ShapeIterator { shape, indexes: [0; D], finished: !ok } } }',
+     ['Definition gen_ShapeIterator_from (md : mode) (shape : (list (N * N))) : outcome ((list (N * N)) * (list N) * bool) :=\n  let ok := forallb (fun x => let l := snd x in 0 <? l) shape in Ok ((shape, repeat 0 (N.to_nat ((N.of_nat (length shape)))), negb ok)).']),
+    ('refuse-record-fields-changed', 'fn', 'ShapeIterator', 'from',
+     'pub struct ShapeIterator<const D: usize> { shape: [(Dimension, usize); D], finished: bool, indexes: [usize; D] }\nimpl<const D: usize> ShapeIterator<D> { pub fn from(shape: [(Dimension, usize); D]) -> ShapeIterator<D> { ShapeIterator { shape, indexes: [0; D], finished: false } } }',
+     ("refused", 'struct ShapeIterator now has fields')),
+    ('trace-events', 'trace', None, 'heaps_permutations',
+     'fn heaps_permutations<T: Clone, F>(k: usize, list: &mut Vec<T>, consumer: &mut F) where F: FnMut(&mut Vec<T>) {\nif k == 1 { consumer(list); return; } for i in 0..k { heaps_permutations(k - 1, list, consumer); if i < k - 1 { if k % 2 == 0 { list.swap(i, k - 1); } else { list.swap(0, k - 1); } } } }',
+     ['Definition gen_heaps_permutations (md : mode) (k : N) : outcome (list (N * list N)) :=\n  if k =? 1 then let trace := [] ++ [(0, [])] in Ok trace else obind (gen_fold (fun (trace1 : (list (N * list N))) (i : N) => obind (u_sub md k 1) (fun tmp1 => let trace2 := trace1 ++ [(1, [tmp1])] in obind (u_sub md k 1) (fun tmp2 => if i <? tmp2 then if (k mod 2) =? 0 then obind (u_sub md k 1) (fun tmp3 => let trace3 := trace2 ++ [(2, [i; tmp3])] in Ok trace3) else obind (u_sub md k 1) (fun tmp4 => let trace4 := trace2 ++ [(2, [0; tmp4])] in Ok trace4) else Ok trace2))) ([]) (gen_range 0 k)) (fun trace5 => Ok trace5).']),
+    ('refuse-trace-unknown-method', 'trace', None, 'heaps_permutations',
+     'fn heaps_permutations<T: Clone, F>(k: usize, list: &mut Vec<T>, consumer: &mut F) { list.reverse(); }',
+     ("refused", 'no event tag configured')),
+    ('vec-as-length-struct-with-unmodelled-field', 'fn', 'Matrix', 'from_flat',
+     'pub struct Matrix<T> { data: Vec<T>, rows: Row, columns: Column }\ntype Row = usize;\ntype Column = usize;\nimpl<T> Matrix<T> { pub fn from_flat(size: (Row, Column), values: Vec<T>) -> Matrix<T> {\nassert!(size.0.checked_mul(size.1) == Some(values.len()), "bad {}", values.len()); assert!(!values.is_empty()); Matrix { data: values, rows: size.0, columns: size.1 } } }',
+     ['Definition gen_Matrix_from_flat (md : mode) (size : (N * N)) (values : N) : outcome gen_matrix :=\n  if gen_opt_eqb (checked_mul (fst size) (snd size)) (Some values) then if negb (values =? 0) then Ok (mkGenMatrix (fst size) (snd size)) else Panic else Panic.']),
+    ('positions-with-iterator-as-length', 'positions_with', 'Matrix', 'irw',
+     'pub struct Matrix<T> { data: Vec<T>, rows: Row, columns: Column }\ntype Row = usize;\ntype Column = usize;\nimpl<T> Matrix<T> { pub fn rows(&self) -> Row { self.rows }\n pub fn columns(&self) -> Column { self.columns }\nfn get_index(&self, row: Row, column: Column) -> usize { column + (row * self.columns()) }\npub fn irw<I>(&mut self, row: Row, mut values: I) where I: Iterator<Item = T> { assert!(row <= self.rows());\nlet new_row = values.by_ref().take(self.columns()).collect::<Vec<T>>(); assert!(new_row.len() == self.columns());\nfor (column, value) in new_row.into_iter().enumerate() { self.data.insert(self.get_index(row, column), value); } self.rows += 1; } }',
+     ['Definition gen_Matrix_columns (md : mode) (self : gen_matrix) : outcome N :=\n  Ok (gm_columns self).',
+      'Definition gen_Matrix_get_index (md : mode) (self : gen_matrix) (row : N) (column : N) : outcome N :=\n  obind (gen_Matrix_columns md self) (fun tmp1 => obind (u_mul md row tmp1) (fun tmp2 => u_add md column tmp2)).',
+      'Definition gen_irw_position (md : mode) (self : gen_matrix) (row : N) (column : N) : outcome N :=\n  gen_Matrix_get_index md self row column.',
+      'Definition gen_Matrix_rows (md : mode) (self : gen_matrix) : outcome N :=\n  Ok (gm_rows self).',
+      'Definition gen_irw (md : mode) (self1 : gen_matrix) (row1 : N) (values1 : N) : outcome (list N * outcome gen_matrix) :=\n  obind (gen_Matrix_rows md self1) (fun tmp11 => if row1 <=? tmp11 then obind (gen_Matrix_columns md self1) (fun tmp2 => let new_row := N.min tmp2 values1 in obind (gen_Matrix_columns md self1) (fun tmp3 => if new_row =? tmp3 then obind (gen_map_m (gen_irw_position md self1 row1) (map fst (gen_enumerate (gen_range 0 new_row)))) (fun positions => Ok (positions, (obind (u_add md (gm_rows self1) 1) (fun tmp4 => let self2 := mkGenMatrix tmp4 (gm_columns self1) in Ok self2)))) else Panic)) else Panic).']),
+    ('positions-with-check-after-loop-is-a-different-term', 'positions_with', 'Matrix', 'icw',
+     'pub struct Matrix<T> { data: Vec<T>, rows: Row, columns: Column }\ntype Row = usize;\ntype Column = usize;\nimpl<T> Matrix<T> { pub fn rows(&self) -> Row { self.rows }\n pub fn columns(&self) -> Column { self.columns }\nfn get_index(&self, row: Row, column: Column) -> usize { column + (row * self.columns()) }\npub fn icw<I>(&mut self, column: Column, values: I) where I: Iterator<Item = T> {\nlet mut vs = values.collect::<Vec<T>>(); vs.truncate(self.rows());\nfor row in (0..self.rows()).rev() { self.data.insert(self.get_index(row, column), vs.pop().unwrap()); } assert!(vs.len() >= self.rows()); self.columns += 1; } }',
+     ['Definition gen_Matrix_columns (md : mode) (self : gen_matrix) : outcome N :=\n  Ok (gm_columns self).',
+      'Definition gen_Matrix_get_index (md : mode) (self : gen_matrix) (row : N) (column : N) : outcome N :=\n  obind (gen_Matrix_columns md self) (fun tmp1 => obind (u_mul md row tmp1) (fun tmp2 => u_add md column tmp2)).',
+      'Definition gen_icw_position (md : mode) (self : gen_matrix) (column : N) (row : N) : outcome N :=\n  gen_Matrix_get_index md self row column.',
+      'Definition gen_Matrix_rows (md : mode) (self : gen_matrix) : outcome N :=\n  Ok (gm_rows self).',
+      'Definition gen_icw (md : mode) (self1 : gen_matrix) (column1 : N) (values1 : N) : outcome (list N * outcome gen_matrix) :=\n  let vs := values1 in obind (gen_Matrix_rows md self1) (fun tmp11 => let vs1 := N.min vs tmp11 in obind (gen_Matrix_rows md self1) (fun tmp2 => obind (gen_map_m (gen_icw_position md self1 column1) (rev (gen_range 0 tmp2))) (fun positions => Ok (positions, (obind (gen_Matrix_rows md self1) (fun tmp3 => if tmp3 <=? vs1 then obind (u_add md (gm_columns self1) 1) (fun tmp4 => let self2 := mkGenMatrix (gm_rows self1) tmp4 in Ok self2) else Panic)))))).']),
+    ('retain-frame-with-counting-loop-and-is-empty', 'retain', 'Matrix', 'rm',
+     'pub struct Matrix<T> { data: Vec<T>, rows: Row, columns: Column }\ntype Row = usize;\ntype Column = usize;\nimpl<T> Matrix<T> { pub fn rows(&self) -> Row { self.rows }\n pub fn columns(&self) -> Column { self.columns }\nfn get_index(&self, row: Row, column: Column) -> usize { column + (row * self.columns()) }\npub fn rm(&mut self, keep_row: Row) { let remaining = { let mut n = 0; for i in 0..self.rows() { if i == keep_row { n += 1; } } n };\nassert!(remaining > 0); let mut r = 0; let mut c = 0; let columns = self.columns();\nself.data.retain(|_| { let keep = r == keep_row; if c < (columns - 1) { c += 1; } else { r += 1; c = 0; } keep }); assert!(!self.data.is_empty()); self.rows = remaining } }',
+     ['Definition gen_Matrix_rows (md : mode) (self : gen_matrix) : outcome N :=\n  Ok (gm_rows self).',
+      'Definition gen_Matrix_columns (md : mode) (self : gen_matrix) : outcome N :=\n  Ok (gm_columns self).',
+      'Definition gen_rm_retain (md : mode) (keep_row1 : N) (columns : N) (r : N) (c : N) : outcome (bool * (N * N)) :=\n  let keep := r =? keep_row1 in obind (u_sub md columns 1) (fun tmp1 => if c <? tmp1 then obind (u_add md c 1) (fun tmp2 => let c1 := tmp2 in Ok (keep, (r, c1))) else obind (u_add md r 1) (fun tmp3 => let r1 := tmp3 in let c2 := 0 in Ok (keep, (r1, c2)))).',
+      "Definition gen_rm (md : mode) (self1 : gen_matrix) (keep_row2 : N) (n : nat) : outcome (list bool * gen_matrix) :=\n  let n1 := 0 in obind (gen_Matrix_rows md self1) (fun tmp11 => obind (gen_fold (fun (n2 : N) (i : N) => if i =? keep_row2 then obind (u_add md n2 1) (fun tmp21 => let n3 := tmp21 in Ok n3) else Ok n2) n1 (gen_range 0 tmp11)) (fun n4 => let remaining := n4 in if 0 <? remaining then let r2 := 0 in let c3 := 0 in obind (gen_Matrix_columns md self1) (fun tmp31 => let columns1 := tmp31 in obind (gen_retain (fun (st : (N * N)) => let '(r3, c4) := st in gen_rm_retain md keep_row2 columns1 r3 c4) ((r2, c3)) n) (fun kept => if negb (negb (existsb (fun b => b) kept)) then let self2 := mkGenMatrix remaining (gm_columns self1) in Ok (kept, self2) else Panic)) else Panic))."]),
+    ('slice-first-map-or', 'fn', None, 'f',
+     'fn f<const D: usize>(shape: &[(Dimension, usize); D]) -> bool { shape.first().map_or(true, |(_, l)| *l > 0) }',
+     ['Definition gen_f (md : mode) (shape : (list (N * N))) : outcome bool :=\n  Ok (match hd_error shape with Some tmp1 => (fun x => let l := snd x in 0 <? l) tmp1 | None => true end).']),
+]
+TABLE += WAVE3_TABLE
 
 
 def translate_snippet(kind, ctx, name, src):
